@@ -1,0 +1,11 @@
+//go:build verif
+
+package endpoint
+
+// VerifValidate is Manager.Validate without a manager: parseEndpoint's verdict
+// on a hook endpoint url (verification hook of the hook life-cycle check,
+// properties C03 / C14).
+func VerifValidate(url string) error {
+	_, err := parseEndpoint(url)
+	return err
+}
